@@ -1,182 +1,771 @@
 package main
 
-// C16 — the CLI flags that map onto the option structs: every `f.AddOpt(&xMinifier.Field, short, long, …)` call of
-// cmd/minify/main.go, as `long=xMinifier.Field`; plus the option struct fields of each minifier package (exported ones),
-// so that a new option without a decision in the expectation table is noticed.
+// C16 — (1) the CLI flags that map onto the option structs, (2) the JS version gates.  Everything is read from the
+// type-checked AST, so that renaming a variable / receiver / unexported function, hoisting a sub-expression into a local,
+// moving a declaration or re-ordering calls does not change the facts.
+//
+// CliFlags.flags: every `….AddOpt(dst, short, long, …)` call of cmd/minify whose `dst` is (a once-defined local holding) the
+//   address of a field of one of the library's `Minifier` option structs, as `long=pkg.Field` (long name by constant value;
+//   the struct is identified by its type, not by the name of the variable).
+// CliFlags.optionFields: the exported fields of the six `Minifier` structs.
 
 import (
 	"fmt"
 	"go/ast"
 	"go/token"
+	"go/types"
 	"sort"
 	"strings"
+
+	"golang.org/x/tools/go/packages"
 )
+
+var c16OptionPkgs = []string{"css", "html", "js", "json", "svg", "xml"}
+
+// c16MinifierField: x is `&v.F` (possibly through once-defined locals) with v of type <pkg>.Minifier; returns "pkg.F"
+func c16MinifierField(p *packages.Package, single map[types.Object]ast.Expr, x ast.Expr) string {
+	info := p.TypesInfo
+	for depth := 0; depth < 10; depth++ {
+		x = unparen(x)
+		if id, ok := x.(*ast.Ident); ok {
+			if def, ok := single[info.Uses[id]]; ok {
+				x = def
+				continue
+			}
+		}
+		break
+	}
+	u, ok := x.(*ast.UnaryExpr)
+	if !ok || u.Op != token.AND {
+		return ""
+	}
+	sel, ok := unparen(u.X).(*ast.SelectorExpr)
+	if !ok {
+		return ""
+	}
+	s, ok := info.Selections[sel]
+	if !ok || s.Kind() != types.FieldVal {
+		return ""
+	}
+	rt := s.Recv()
+	if pt, ok := rt.Underlying().(*types.Pointer); ok {
+		rt = pt.Elem()
+	}
+	nt, ok := types.Unalias(rt).(*types.Named)
+	if !ok || nt.Obj().Name() != "Minifier" || nt.Obj().Pkg() == nil {
+		return ""
+	}
+	for _, pk := range c16OptionPkgs {
+		if nt.Obj().Pkg().Path() == modPath+"/"+pk {
+			return pk + "." + s.Obj().Name()
+		}
+	}
+	return ""
+}
 
 func init() {
 	gen("CliFlags", func(r *Repo) (string, error) {
-		fs, err := r.Files("cmd/minify")
+		e, err := r.TEnv()
 		if err != nil {
 			return "", err
 		}
+		p, err := e.Pkg("cmd/minify")
+		if err != nil {
+			return "", err
+		}
+		single := singleDefs(p)
 		var flags []string
-		for _, f := range fs {
+		var ferr error
+		for _, f := range p.Syntax {
+			if !isRepoFile(r.Fset, f) {
+				continue
+			}
 			ast.Inspect(f, func(n ast.Node) bool {
 				call, ok := n.(*ast.CallExpr)
 				if !ok || len(call.Args) < 3 {
 					return true
 				}
-				sel, ok := call.Fun.(*ast.SelectorExpr)
-				if !ok || sel.Sel.Name != "AddOpt" {
+				fn := calleeOf(p.TypesInfo, call)
+				if fn == nil || fn.Name() != "AddOpt" {
 					return true
 				}
-				u, ok := call.Args[0].(*ast.UnaryExpr)
-				if !ok || u.Op != token.AND {
+				field := c16MinifierField(p, single, call.Args[0])
+				if field == "" {
 					return true
 				}
-				tsel, ok := u.X.(*ast.SelectorExpr)
-				if !ok {
-					return true
+				long, err := e.Bytes(p, call.Args[2])
+				if err != nil {
+					ferr = fmt.Errorf("AddOpt(&%s, …): flag name is not a constant string: %v", field, err)
+					return false
 				}
-				base, ok := tsel.X.(*ast.Ident)
-				if !ok || !strings.HasSuffix(base.Name, "Minifier") {
-					return true
-				}
-				long, ok := call.Args[2].(*ast.BasicLit)
-				if !ok {
-					return true
-				}
-				flags = append(flags, fmt.Sprintf("%s=%s.%s", strings.Trim(long.Value, `"`), base.Name, tsel.Sel.Name))
+				flags = append(flags, fmt.Sprintf("%s=%s", long, field))
 				return true
 			})
 		}
+		if ferr != nil {
+			return "", ferr
+		}
 		if len(flags) == 0 {
-			return "", fmt.Errorf("no AddOpt(&xMinifier.Field, …) calls found in cmd/minify")
+			return "", fmt.Errorf("no AddOpt(&<Minifier>.Field, …) calls found in cmd/minify")
 		}
 		sort.Strings(flags)
 		var fields []string
-		for _, pkg := range []string{"css", "html", "js", "json", "svg", "xml"} {
-			pf, err := r.Files(pkg)
+		for _, pkg := range c16OptionPkgs {
+			lp, err := e.Pkg(pkg)
 			if err != nil {
 				return "", err
 			}
-			for _, f := range pf {
-				for _, d := range f.Decls {
-					gd, ok := d.(*ast.GenDecl)
-					if !ok || gd.Tok != token.TYPE {
-						continue
-					}
-					for _, s := range gd.Specs {
-						ts := s.(*ast.TypeSpec)
-						st, ok := ts.Type.(*ast.StructType)
-						if !ok || ts.Name.Name != "Minifier" {
-							continue
-						}
-						for _, fl := range st.Fields.List {
-							for _, nm := range fl.Names {
-								if nm.IsExported() {
-									fields = append(fields, pkg+"."+nm.Name)
-								}
-							}
-						}
-					}
+			tn, ok := lp.Types.Scope().Lookup("Minifier").(*types.TypeName)
+			if !ok {
+				return "", fmt.Errorf("%s: type Minifier not found", pkg)
+			}
+			st, ok := tn.Type().Underlying().(*types.Struct)
+			if !ok {
+				return "", fmt.Errorf("%s.Minifier is not a struct any more", pkg)
+			}
+			for i := 0; i < st.NumFields(); i++ {
+				if st.Field(i).Exported() {
+					fields = append(fields, pkg+"."+st.Field(i).Name())
 				}
 			}
 		}
 		sort.Strings(fields)
 		var b strings.Builder
 		b.WriteString(header("CliFlags", "/repo/cmd/minify/main.go (AddOpt calls) and the Minifier option structs"))
-		fmt.Fprintf(&b, "/-- `--flag=xMinifier.Field` for every CLI flag bound to an option struct field -/\ndef flags : List String := %s\n\n", leanStrList(flags))
+		fmt.Fprintf(&b, "/-- `--flag=pkg.Field` for every CLI flag bound to a field of a library option struct -/\ndef flags : List String := %s\n\n", leanStrList(flags))
 		fmt.Fprintf(&b, "/-- exported fields of the six `Minifier` option structs -/\ndef optionFields : List String := %s\n", leanStrList(fields))
 		b.WriteString(footer("CliFlags"))
 		return b.String(), nil
 	})
 }
 
-// version gates: every call `….minVersion(N)` in package js with its enclosing function, and every place where a byte
-// sequence of newer syntax (`**`, `?.`, `??`, template literals through minifyString's allowTemplate, optional catch
-// binding) is produced — so that a new ungated producer changes the regenerated list.
+// ---------------------------------------------------------------------------------------------------------------------
+// JsVersionGates.
+//
+// gate function   a function of package js with one int parameter p and a bool result whose body is
+//                 `return V == 0 || p <= V` (either order, `V >= p`) with V the field `Version` of js.Minifier — today
+//                 (*Minifier).minVersion; found by this shape, not by name.
+// gate atom       a call of a gate function with a constant argument N, the same test written inline, or a once-defined
+//                 local bool holding one.
+// A statement is *gated N* when it can only execute if a gate atom with that N holds: it sits in the then-branch of an `if`
+// whose condition implies the atom (conjunctions, negations and else-branches are followed; the right operand of `a && b`
+// is gated by a), or behind an `if !atom { return }` in the same statement list.  Init statements and conditions of an `if`
+// are NOT gated by that `if`'s own condition.  Likewise *input-flag Optional*: dominated by a test of a node's Optional field
+// (the printer re-emits `?.` only for nodes that carry the flag).
+//
+// producers       places where syntax newer than ES5 is created rather than copied:
+//                   bytes T        a call that is handed the byte string T ∈ {**, **=, ?., ??, ??=} (by value: named slice, literal, …)
+//                   set Optional   `x.Optional = true` / `Optional: true` on a parse/v2/js node
+//                   token T        a js.TokenType constant T ∈ {NullishToken, OptChainToken, ExpToken, …Eq variants} used as a value
+//                                  (composite literal element, assigned, passed) — not as map key, case label or comparison operand
+//                   template       `minifyString(x, allow)` with `allow` not the constant false (template literals are ES2015)
+//                 A producer that is not gated inside its function makes that function a constructor: every call of it is a
+//                 producer of the same kind (so the label of `toNullishExpr` is the gate around its call).  The fact is the
+//                 set (sorted, no duplicates, no function names) of `kind: gated N | input-flag Optional | UNGATED in f`.
+// gateVersions    the distinct N of all gate atoms.
+
+type c16Ctx struct {
+	gates []int64 // versions known to hold
+	flag  bool    // a node's Optional flag is known to be set
+}
+
+func (c c16Ctx) with(atoms []c16Atom) c16Ctx {
+	out := c16Ctx{append([]int64(nil), c.gates...), c.flag}
+	for _, a := range atoms {
+		if a.flag {
+			out.flag = true
+		} else {
+			out.gates = append(out.gates, a.n)
+		}
+	}
+	return out
+}
+
+func (c c16Ctx) label() string {
+	if len(c.gates) > 0 {
+		max := c.gates[0]
+		for _, g := range c.gates {
+			if g > max {
+				max = g
+			}
+		}
+		return fmt.Sprintf("gated %d", max)
+	}
+	if c.flag {
+		return "input-flag Optional"
+	}
+	return ""
+}
+
+type c16Atom struct {
+	n    int64
+	flag bool
+}
+
+type c16State struct {
+	e         *tenv
+	p         *packages.Package
+	single    map[types.Object]ast.Expr
+	gateFns   map[*types.Func]bool
+	versions  map[int64]bool
+	producers map[string]bool
+	// constructor functions: kind set; call sites collected per function for propagation
+	ctor     map[*types.Func]map[string]bool
+	cur      *types.Func
+	curName  string
+	changed  bool
+	tokNames map[int64]string
+	tokType  types.Type
+}
+
+var c16NewerBytes = map[string]bool{"**": true, "**=": true, "?.": true, "??": true, "??=": true, "||=": true, "&&=": true}
+var c16NewerTokens = map[string]bool{"NullishToken": true, "OptChainToken": true, "ExpToken": true, "ExpEqToken": true, "NullishEqToken": true, "AndEqToken": true, "OrEqToken": true}
+
+func (s *c16State) isVersionField(x ast.Expr) bool {
+	sel, ok := unparen(x).(*ast.SelectorExpr)
+	if !ok {
+		return false
+	}
+	sl, ok := s.p.TypesInfo.Selections[sel]
+	if !ok || sl.Kind() != types.FieldVal || sl.Obj().Name() != "Version" {
+		return false
+	}
+	rt := sl.Recv()
+	if pt, ok := rt.Underlying().(*types.Pointer); ok {
+		rt = pt.Elem()
+	}
+	nt, ok := types.Unalias(rt).(*types.Named)
+	return ok && nt.Obj().Name() == "Minifier" && nt.Obj().Pkg() == s.p.Types
+}
+
+// versionTest: x is `V == 0 || c <= V` for some expression c; returns c
+func (s *c16State) versionTest(x ast.Expr) (ast.Expr, bool) {
+	b, ok := unparen(x).(*ast.BinaryExpr)
+	if !ok || b.Op != token.LOR {
+		return nil, false
+	}
+	isZeroTest := func(y ast.Expr) bool {
+		c, ok := unparen(y).(*ast.BinaryExpr)
+		if !ok || c.Op != token.EQL {
+			return false
+		}
+		for _, pr := range [][2]ast.Expr{{c.X, c.Y}, {c.Y, c.X}} {
+			if s.isVersionField(pr[0]) {
+				if n, err := s.e.Int(s.p, pr[1]); err == nil && n == 0 {
+					return true
+				}
+			}
+		}
+		return false
+	}
+	atLeast := func(y ast.Expr) (ast.Expr, bool) {
+		c, ok := unparen(y).(*ast.BinaryExpr)
+		if !ok {
+			return nil, false
+		}
+		if c.Op == token.LEQ && s.isVersionField(c.Y) {
+			return c.X, true
+		}
+		if c.Op == token.GEQ && s.isVersionField(c.X) {
+			return c.Y, true
+		}
+		return nil, false
+	}
+	for _, pr := range [][2]ast.Expr{{b.X, b.Y}, {b.Y, b.X}} {
+		if isZeroTest(pr[0]) {
+			if c, ok := atLeast(pr[1]); ok {
+				return c, true
+			}
+		}
+	}
+	return nil, false
+}
+
+func (s *c16State) findGateFns() {
+	info := s.p.TypesInfo
+	for _, f := range s.p.Syntax {
+		if !isRepoFile(s.e.r.Fset, f) {
+			continue
+		}
+		for _, d := range f.Decls {
+			fd, ok := d.(*ast.FuncDecl)
+			if !ok || fd.Body == nil || len(fd.Body.List) != 1 {
+				continue
+			}
+			fn, _ := info.Defs[fd.Name].(*types.Func)
+			if fn == nil {
+				continue
+			}
+			sig := fn.Type().(*types.Signature)
+			if sig.Params().Len() != 1 || sig.Results().Len() != 1 || !types.Identical(sig.Results().At(0).Type(), types.Typ[types.Bool]) {
+				continue
+			}
+			ret, ok := fd.Body.List[0].(*ast.ReturnStmt)
+			if !ok || len(ret.Results) != 1 {
+				continue
+			}
+			c, ok := s.versionTest(ret.Results[0])
+			if !ok {
+				continue
+			}
+			if id, ok := unparen(c).(*ast.Ident); ok && len(fd.Type.Params.List) == 1 && len(fd.Type.Params.List[0].Names) == 1 && info.Uses[id] == info.Defs[fd.Type.Params.List[0].Names[0]] {
+				s.gateFns[fn] = true
+			}
+		}
+	}
+}
+
+// atom: x is a gate atom / Optional-flag test
+func (s *c16State) atom(x ast.Expr) (c16Atom, bool) {
+	info := s.p.TypesInfo
+	x = unparen(x)
+	for depth := 0; depth < 10; depth++ {
+		id, ok := x.(*ast.Ident)
+		if !ok {
+			break
+		}
+		def, ok := s.single[info.Uses[id]]
+		if !ok {
+			break
+		}
+		x = unparen(def)
+	}
+	switch v := x.(type) {
+	case *ast.CallExpr:
+		if fn := calleeOf(info, v); fn != nil && s.gateFns[fn.Origin()] && len(v.Args) == 1 {
+			if n, err := s.e.Int(s.p, v.Args[0]); err == nil {
+				s.versions[n] = true
+				return c16Atom{n: n}, true
+			}
+		}
+	case *ast.BinaryExpr:
+		if c, ok := s.versionTest(v); ok {
+			if n, err := s.e.Int(s.p, c); err == nil {
+				s.versions[n] = true
+				return c16Atom{n: n}, true
+			}
+		}
+	case *ast.SelectorExpr:
+		if sl, ok := info.Selections[v]; ok && sl.Kind() == types.FieldVal && sl.Obj().Name() == "Optional" && sl.Obj().Pkg() != nil && sl.Obj().Pkg().Path() == "github.com/tdewolff/parse/v2/js" {
+			return c16Atom{flag: true}, true
+		}
+	}
+	return c16Atom{}, false
+}
+
+func c16Intersect(a, b []c16Atom) []c16Atom {
+	var out []c16Atom
+	for _, x := range a {
+		for _, y := range b {
+			if x == y {
+				out = append(out, x)
+			}
+		}
+	}
+	return out
+}
+
+// holds: the atoms that hold when cond evaluates to `truth`
+func (s *c16State) holds(cond ast.Expr, truth bool) []c16Atom {
+	cond = unparen(cond)
+	if a, ok := s.atom(cond); ok {
+		if truth {
+			return []c16Atom{a}
+		}
+		return nil
+	}
+	switch v := cond.(type) {
+	case *ast.UnaryExpr:
+		if v.Op == token.NOT {
+			return s.holds(v.X, !truth)
+		}
+	case *ast.BinaryExpr:
+		if v.Op == token.LAND {
+			if truth {
+				return append(s.holds(v.X, true), s.holds(v.Y, true)...)
+			}
+			return c16Intersect(s.holds(v.X, false), s.holds(v.Y, false))
+		}
+		if v.Op == token.LOR {
+			if truth {
+				return c16Intersect(s.holds(v.X, true), s.holds(v.Y, true))
+			}
+			return append(s.holds(v.X, false), s.holds(v.Y, false)...)
+		}
+	}
+	return nil
+}
+
+func (s *c16State) produce(kind string, ctx c16Ctx) {
+	if l := ctx.label(); l != "" {
+		s.producers[kind+": "+l] = true
+		return
+	}
+	// not gated inside this function: the function constructs newer syntax
+	if s.cur == nil {
+		s.producers[kind+": UNGATED in "+s.curName] = true
+		return
+	}
+	m := s.ctor[s.cur]
+	if m == nil {
+		m = map[string]bool{}
+		s.ctor[s.cur] = m
+	}
+	if !m[kind] {
+		m[kind] = true
+		s.changed = true
+	}
+}
+
+func (s *c16State) isTokenConst(x ast.Expr) (string, bool) {
+	tv, ok := s.p.TypesInfo.Types[x]
+	if !ok || tv.Value == nil || s.tokType == nil || !types.Identical(tv.Type, s.tokType) {
+		return "", false
+	}
+	n, err := s.e.Int(s.p, x)
+	if err != nil {
+		return "", false
+	}
+	name, ok := s.tokNames[n]
+	return name, ok && c16NewerTokens[name]
+}
+
+// expr walks an expression for producer sites, honouring short-circuit evaluation
+func (s *c16State) expr(x ast.Expr, ctx c16Ctx) {
+	info := s.p.TypesInfo
+	switch v := x.(type) {
+	case nil:
+		return
+	case *ast.ParenExpr:
+		s.expr(v.X, ctx)
+	case *ast.BinaryExpr:
+		s.expr(v.X, ctx)
+		switch v.Op {
+		case token.LAND:
+			s.expr(v.Y, ctx.with(s.holds(v.X, true)))
+		case token.LOR:
+			s.expr(v.Y, ctx.with(s.holds(v.X, false)))
+		default:
+			s.expr(v.Y, ctx)
+		}
+	case *ast.UnaryExpr:
+		s.expr(v.X, ctx)
+	case *ast.StarExpr:
+		s.expr(v.X, ctx)
+	case *ast.SelectorExpr:
+		s.expr(v.X, ctx)
+	case *ast.IndexExpr:
+		s.expr(v.X, ctx)
+		s.expr(v.Index, ctx)
+	case *ast.SliceExpr:
+		s.expr(v.X, ctx)
+		s.expr(v.Low, ctx)
+		s.expr(v.High, ctx)
+		s.expr(v.Max, ctx)
+	case *ast.TypeAssertExpr:
+		s.expr(v.X, ctx)
+	case *ast.KeyValueExpr:
+		s.expr(v.Value, ctx)
+	case *ast.FuncLit:
+		s.block(v.Body.List, ctx)
+	case *ast.CompositeLit:
+		_, isMap := info.TypeOf(v).Underlying().(*types.Map)
+		for _, el := range v.Elts {
+			val := el
+			if kv, ok := el.(*ast.KeyValueExpr); ok {
+				val = kv.Value
+				if !isMap {
+					if id, ok := kv.Key.(*ast.Ident); ok && id.Name == "Optional" {
+						if b, err := s.e.Bool(s.p, val); err != nil || b {
+							if f, ok := info.Uses[id].(*types.Var); ok && f.IsField() && f.Pkg() != nil && f.Pkg().Path() == "github.com/tdewolff/parse/v2/js" {
+								s.produce("set Optional", ctx)
+							}
+						}
+					}
+				} else {
+					s.expr(kv.Key, ctx) // calls inside keys; token constants as keys are not values
+				}
+			}
+			if name, ok := s.isTokenConst(val); ok && !isMap {
+				s.produce("token "+name, ctx)
+			}
+			s.expr(val, ctx)
+		}
+	case *ast.CallExpr:
+		s.expr(v.Fun, ctx)
+		fn := calleeOf(info, v)
+		for _, a := range v.Args {
+			if t := info.TypeOf(a); t != nil && isByteSlice(t) {
+				if b, err := s.e.Bytes(s.p, a); err == nil && c16NewerBytes[b] {
+					s.produce("bytes "+b, ctx)
+				}
+			}
+			if name, ok := s.isTokenConst(a); ok {
+				s.produce("token "+name, ctx)
+			}
+			s.expr(a, ctx)
+		}
+		if fn != nil {
+			if fn.Pkg() == s.p.Types && fn.Name() == "minifyString" && len(v.Args) == 2 {
+				allow := v.Args[1]
+				if b, err := s.e.Bool(s.p, allow); err == nil {
+					if b {
+						s.produce("template", ctx)
+					}
+				} else if a, ok := s.atom(allow); ok && !a.flag {
+					s.producers[fmt.Sprintf("template: gated %d", a.n)] = true
+				} else {
+					s.produce("template", ctx)
+				}
+			}
+			for kind := range s.ctor[fn.Origin()] {
+				s.produce(kind, ctx)
+			}
+		}
+	}
+}
+
+func c16Terminates(list []ast.Stmt) bool {
+	if len(list) == 0 {
+		return false
+	}
+	switch t := list[len(list)-1].(type) {
+	case *ast.ReturnStmt:
+		return true
+	case *ast.BranchStmt:
+		return t.Tok == token.BREAK || t.Tok == token.CONTINUE || t.Tok == token.GOTO
+	case *ast.ExprStmt:
+		if c, ok := t.X.(*ast.CallExpr); ok {
+			if id, ok := c.Fun.(*ast.Ident); ok && id.Name == "panic" {
+				return true
+			}
+		}
+	case *ast.BlockStmt:
+		return c16Terminates(t.List)
+	}
+	return false
+}
+
+func (s *c16State) block(list []ast.Stmt, ctx c16Ctx) {
+	for _, st := range list {
+		ctx = s.stmt(st, ctx)
+	}
+}
+
+// stmt walks one statement and returns the context for the statements that follow it in the same list
+func (s *c16State) stmt(st ast.Stmt, ctx c16Ctx) c16Ctx {
+	info := s.p.TypesInfo
+	switch v := st.(type) {
+	case nil:
+	case *ast.ExprStmt:
+		s.expr(v.X, ctx)
+	case *ast.AssignStmt:
+		for i, l := range v.Lhs {
+			if sel, ok := unparen(l).(*ast.SelectorExpr); ok && sel.Sel.Name == "Optional" && i < len(v.Rhs) {
+				if sl, ok := info.Selections[sel]; ok && sl.Obj().Pkg() != nil && sl.Obj().Pkg().Path() == "github.com/tdewolff/parse/v2/js" {
+					if b, err := s.e.Bool(s.p, v.Rhs[i]); err != nil || b {
+						s.produce("set Optional", ctx)
+					}
+				}
+			}
+			s.expr(l, ctx)
+		}
+		for _, r := range v.Rhs {
+			if name, ok := s.isTokenConst(r); ok {
+				s.produce("token "+name, ctx)
+			}
+			s.expr(r, ctx)
+		}
+	case *ast.DeclStmt:
+		if gd, ok := v.Decl.(*ast.GenDecl); ok {
+			for _, sp := range gd.Specs {
+				if vs, ok := sp.(*ast.ValueSpec); ok {
+					for _, r := range vs.Values {
+						s.expr(r, ctx)
+					}
+				}
+			}
+		}
+	case *ast.ReturnStmt:
+		for _, r := range v.Results {
+			if name, ok := s.isTokenConst(r); ok {
+				s.produce("token "+name, ctx)
+			}
+			s.expr(r, ctx)
+		}
+	case *ast.IncDecStmt:
+		s.expr(v.X, ctx)
+	case *ast.SendStmt:
+		s.expr(v.Value, ctx)
+	case *ast.GoStmt:
+		s.expr(v.Call, ctx)
+	case *ast.DeferStmt:
+		s.expr(v.Call, ctx)
+	case *ast.LabeledStmt:
+		return s.stmt(v.Stmt, ctx)
+	case *ast.BlockStmt:
+		s.block(v.List, ctx)
+	case *ast.IfStmt:
+		inner := ctx
+		if v.Init != nil {
+			inner = s.stmt(v.Init, ctx)
+		}
+		s.expr(v.Cond, inner)
+		s.block(v.Body.List, inner.with(s.holds(v.Cond, true)))
+		elseCtx := inner.with(s.holds(v.Cond, false))
+		elseTerm := false
+		switch e := v.Else.(type) {
+		case *ast.BlockStmt:
+			s.block(e.List, elseCtx)
+			elseTerm = c16Terminates(e.List)
+		case *ast.IfStmt:
+			s.stmt(e, elseCtx)
+		}
+		if c16Terminates(v.Body.List) && !elseTerm {
+			return ctx.with(s.holds(v.Cond, false))
+		}
+		if elseTerm && !c16Terminates(v.Body.List) {
+			return ctx.with(s.holds(v.Cond, true))
+		}
+	case *ast.ForStmt:
+		inner := ctx
+		if v.Init != nil {
+			inner = s.stmt(v.Init, ctx)
+		}
+		s.expr(v.Cond, inner)
+		if v.Post != nil {
+			s.stmt(v.Post, inner)
+		}
+		s.block(v.Body.List, inner)
+	case *ast.RangeStmt:
+		s.expr(v.X, ctx)
+		s.block(v.Body.List, ctx)
+	case *ast.SwitchStmt:
+		inner := ctx
+		if v.Init != nil {
+			inner = s.stmt(v.Init, ctx)
+		}
+		s.expr(v.Tag, inner)
+		for _, c := range v.Body.List {
+			cc := c.(*ast.CaseClause)
+			cctx := inner
+			if v.Tag == nil && len(cc.List) == 1 {
+				cctx = inner.with(s.holds(cc.List[0], true))
+			}
+			for _, x := range cc.List {
+				s.expr(x, inner)
+			}
+			s.block(cc.Body, cctx)
+		}
+	case *ast.TypeSwitchStmt:
+		inner := ctx
+		if v.Init != nil {
+			inner = s.stmt(v.Init, ctx)
+		}
+		s.stmt(v.Assign, inner)
+		for _, c := range v.Body.List {
+			s.block(c.(*ast.CaseClause).Body, inner)
+		}
+	case *ast.SelectStmt:
+		for _, c := range v.Body.List {
+			s.block(c.(*ast.CommClause).Body, ctx)
+		}
+	}
+	return ctx
+}
+
 func init() {
 	gen("JsVersionGates", func(r *Repo) (string, error) {
-		fs, err := r.Files("js")
+		e, err := r.TEnv()
 		if err != nil {
 			return "", err
 		}
-		var gates, producers []string
-		for _, f := range fs {
-			for _, d := range f.Decls {
-				fd, ok := d.(*ast.FuncDecl)
-				if !ok || fd.Body == nil {
-					continue
+		p, err := e.Pkg("js")
+		if err != nil {
+			return "", err
+		}
+		s := &c16State{e: e, p: p, single: singleDefs(p), gateFns: map[*types.Func]bool{}, versions: map[int64]bool{}, producers: map[string]bool{},
+			ctor: map[*types.Func]map[string]bool{}}
+		if dep, ok := e.byPath["github.com/tdewolff/parse/v2/js"]; ok {
+			if tn, ok := dep.Types.Scope().Lookup("TokenType").(*types.TypeName); ok {
+				s.tokType = tn.Type()
+				if s.tokNames, err = e.ConstNames(tn.Type()); err != nil {
+					return "", err
 				}
-				fn := funcName(fd)
-				// which producer calls sit inside the BODY of an `if` whose condition mentions minVersion(N): a call in the
-				// init statement or the condition itself runs before the gate is evaluated
-				guard := map[*ast.CallExpr]string{}
-				var walk func(n ast.Node, g string)
-				walk = func(n ast.Node, g string) {
-					ast.Inspect(n, func(x ast.Node) bool {
-						switch t := x.(type) {
-						case *ast.IfStmt:
-							if t.Init != nil {
-								walk(t.Init, g)
-							}
-							walk(t.Cond, g)
-							g2 := g
-							ct := exprText(r.Fset, t.Cond)
-							if i := strings.Index(ct, "minVersion("); i >= 0 {
-								g2 = ct[i : i+strings.Index(ct[i:], ")")+1]
-							}
-							walk(t.Body, g2)
-							if t.Else != nil {
-								walk(t.Else, g)
-							}
-							return false
-						case *ast.CallExpr:
-							guard[t] = g
-						}
-						return true
-					})
-				}
-				walk(fd.Body, "")
-				ast.Inspect(fd.Body, func(n ast.Node) bool {
-					call, ok := n.(*ast.CallExpr)
-					if !ok {
-						return true
-					}
-					ft := exprText(r.Fset, call.Fun)
-					if strings.HasSuffix(ft, ".minVersion") && len(call.Args) == 1 {
-						gates = append(gates, fmt.Sprintf("%s: minVersion(%s)", fn, exprText(r.Fset, call.Args[0])))
-					}
-					if strings.HasSuffix(ft, ".write") && len(call.Args) == 1 {
-						a := exprText(r.Fset, call.Args[0])
-						if a == "expBytes" || a == "optChainBytes" {
-							g := guard[call]
-							if g == "" {
-								g = "no-gate"
-							}
-							producers = append(producers, fmt.Sprintf("%s: write(%s) inside %s", fn, a, g))
-						}
-					}
-					if ft == "toNullishExpr" {
-						g := guard[call]
-						if g == "" {
-							g = "UNGUARDED"
-						}
-						producers = append(producers, fmt.Sprintf("%s: toNullishExpr inside %s", fn, g))
-					}
-					if ft == "minifyString" && len(call.Args) == 2 {
-						producers = append(producers, fmt.Sprintf("%s: minifyString allowTemplate=%s", fn, exprText(r.Fset, call.Args[1])))
-					}
-					return true
-				})
 			}
 		}
-		sort.Strings(gates)
-		sort.Strings(producers)
+		if s.tokType == nil {
+			return "", fmt.Errorf("dependency type parse/v2/js.TokenType not found")
+		}
+		s.findGateFns()
+		type fdecl struct {
+			fd *ast.FuncDecl
+			fn *types.Func
+		}
+		var decls []fdecl
+		for _, f := range p.Syntax {
+			if !isRepoFile(r.Fset, f) {
+				continue
+			}
+			for _, d := range f.Decls {
+				if fd, ok := d.(*ast.FuncDecl); ok && fd.Body != nil {
+					fn, _ := p.TypesInfo.Defs[fd.Name].(*types.Func)
+					decls = append(decls, fdecl{fd, fn})
+				}
+			}
+		}
+		sort.Slice(decls, func(i, j int) bool { return funcName(decls[i].fd) < funcName(decls[j].fd) })
+		// which functions are called from inside the package (a constructor nobody calls, or an exported one, is an
+		// ungated producer in its own right)
+		called := map[*types.Func]bool{}
+		for _, d := range decls {
+			ast.Inspect(d.fd.Body, func(n ast.Node) bool {
+				if c, ok := n.(*ast.CallExpr); ok {
+					if fn := calleeOf(p.TypesInfo, c); fn != nil {
+						called[fn.Origin()] = true
+					}
+				}
+				return true
+			})
+		}
+		for round := 0; round < 10; round++ {
+			s.changed = false
+			s.producers = map[string]bool{}
+			for _, d := range decls {
+				s.cur, s.curName = d.fn, funcName(d.fd)
+				if d.fn != nil && (d.fn.Exported() && d.fd.Recv == nil || !called[d.fn.Origin()] || round >= 8) {
+					s.cur = nil // nothing above it to carry the gate
+				}
+				s.block(d.fd.Body.List, c16Ctx{})
+			}
+			if !s.changed {
+				break
+			}
+		}
+		var vs []int64
+		for v := range s.versions {
+			vs = append(vs, v)
+		}
+		sort.Slice(vs, func(i, j int) bool { return vs[i] < vs[j] })
+		var vtxt []string
+		for _, v := range vs {
+			vtxt = append(vtxt, fmt.Sprint(v))
+		}
+		var prods []string
+		for k := range s.producers {
+			prods = append(prods, k)
+		}
+		sort.Strings(prods)
+		var gfs []string
+		for fn := range s.gateFns {
+			gfs = append(gfs, shortFuncName(fn))
+		}
+		sort.Strings(gfs)
 		var b strings.Builder
-		b.WriteString(header("JsVersionGates", "/repo/js (minVersion call sites and producers of newer syntax)"))
-		fmt.Fprintf(&b, "def gates : List String := %s\n\n", leanStrList(gates))
-		fmt.Fprintf(&b, "def producers : List String := %s\n", leanStrList(producers))
+		b.WriteString(header("JsVersionGates", "/repo/js (version gates and producers of newer syntax; see harness/cmd/extract/c16_flags.go for the definitions)"))
+		fmt.Fprintf(&b, "/-- number of functions of package js of the shape `return o.Version == 0 || v <= o.Version` (found by shape, not by name) -/\ndef gateFunctions : Nat := %d\n\n", len(gfs))
+		fmt.Fprintf(&b, "/-- the distinct versions tested by gate atoms -/\ndef gateVersions : List Nat := [%s]\n\n", strings.Join(vtxt, ", "))
+		fmt.Fprintf(&b, "/-- `kind: gated N | input-flag Optional | UNGATED in f` for every producer of newer syntax (a set: sorted, no duplicates) -/\ndef producers : List String := %s\n", leanStrList(prods))
 		b.WriteString(footer("JsVersionGates"))
 		return b.String(), nil
 	})
